@@ -469,55 +469,73 @@ Definition pop_frame (s : st) : st :=
 Definition count_action (s : st) : st :=
   mkSt (s_seq s) (s_frames s) (S (s_nact s)) (s_ok s && (S (s_nact s) + 2 <=? budget)).
 
+(* The engine is written with open recursion: `rec` applies a lookup at a
+   position inside a window (it is apply_at with less fuel). *)
+Section Open.
+Variable rec : lookup -> nat -> nat -> st -> option (st * nat).
+
+(* run the nested actions of a matched rule, in order; each sequence index is
+   resolved against the LIVE input positions of the innermost frame *)
+Fixpoint run_actions (tl' : nat) (acts : list action) (s : st) : st :=
+  match acts with
+  | [] => s
+  | (si, li) :: acts' =>
+    let s := count_action s in
+    if negb (s_ok s) then s else   (* outside the domain: stop *)
+    match nth_error (hd [] (s_frames s)) si with
+    | None => run_actions tl' acts' s        (* no such input glyph: nothing to do *)
+    | Some p =>
+      match nth_error ll li with
+      | None => run_actions tl' acts' s
+      | Some lk' =>
+        if kp_of lk' (gid_at (s_seq s) p) then
+          match rec lk' p tl' s with
+          | Some (s', _) => run_actions tl' acts' s'
+          | None => run_actions tl' acts' s
+          end
+        else run_actions tl' acts' s
+      end
+    end
+  end.
+
+(* one subtable at position a, window end = |seq| - tl *)
+Definition try_sub (kp : N -> bool) (a tl : nat) (s : st) (sub : subtable) : option (st * nat) :=
+  let seq := s_seq s in
+  let b := length seq - tl in
+  match simple_effect gd kp seq a b sub with
+  | Some (e, ok) => Some (apply_effect e (and_ok ok s))
+  | None =>
+    match find_rule kp seq a b (ctx_rules sub (gid_at seq a)) with
+    | Some (P, acts) =>
+      let tl' := length seq - end_pos kp seq (last_pos P a) b in
+      let s3 := pop_frame (run_actions tl' acts (push_frame P s)) in
+      Some (s3, length (s_seq s3) - tl')
+    | None => None
+    end
+  end.
+
+(* the first matching subtable wins *)
+Fixpoint try_subs (kp : N -> bool) (a tl : nat) (s : st) (subs : list subtable)
+  : option (st * nat) :=
+  match subs with
+  | [] => None
+  | sub :: subs' =>
+    match try_sub kp a tl s sub with
+    | Some r => Some r
+    | None => try_subs kp a tl s subs'
+    end
+  end.
+End Open.
+
 (* apply lookup lk at position a; the window ends tl glyphs before the end
-   of the sequence.  First matching subtable wins.  Returns the new state and
-   the position where a left-to-right scan resumes. *)
+   of the sequence.  Returns the new state and the position where a
+   left-to-right scan resumes.  Running out of fuel (= nesting deeper than
+   the action budget) is outside the domain. *)
 Fixpoint apply_at (fuel : nat) (lk : lookup) (a tl : nat) (s : st) {struct fuel}
   : option (st * nat) :=
   match fuel with
   | O => Some (and_ok false s, S a)
-  | S f =>
-    let kp := kp_of lk in
-    (fix try (subs : list subtable) : option (st * nat) :=
-       match subs with
-       | [] => None
-       | sub :: subs' =>
-         let seq := s_seq s in
-         let b := length seq - tl in
-         match simple_effect gd kp seq a b sub with
-         | Some (e, ok) => Some (apply_effect e (and_ok ok s))
-         | None =>
-           match find_rule kp seq a b (ctx_rules sub (gid_at seq a)) with
-           | Some (P, acts) =>
-             let tl' := length seq - end_pos kp seq (last_pos P a) b in
-             let s2 :=
-               (fix run (acts : list action) (s : st) : st :=
-                  match acts with
-                  | [] => s
-                  | (si, li) :: acts' =>
-                    let s := count_action s in
-                    if negb (s_ok s) then s else   (* outside the domain: stop *)
-                    match nth_error (hd [] (s_frames s)) si with
-                    | None => run acts' (and_ok false s)
-                    | Some p =>
-                      match nth_error ll li with
-                      | None => run acts' s
-                      | Some lk' =>
-                        if kp_of lk' (gid_at (s_seq s) p) then
-                          match apply_at f lk' p tl' s with
-                          | Some (s', _) => run acts' s'
-                          | None => run acts' s
-                          end
-                        else run acts' s
-                      end
-                    end
-                  end) acts (push_frame P s) in
-             let s3 := pop_frame s2 in
-             Some (s3, length (s_seq s3) - tl')
-           | None => try subs'
-           end
-         end
-       end) (lk_subs lk)
+  | S f => try_subs (apply_at f) (kp_of lk) a tl s (lk_subs lk)
   end.
 
 (* one step of the left-to-right scan at position p *)
